@@ -46,6 +46,7 @@ DEFAULT = dict(
     p_drawing=0.06, p_pict=0.05, p_textbox=0.05, p_instr=0.04, p_deltext=0.04, p_runmisc=0.04,
     rich_text=True, offvals=True,
     # parts
+    p_prchange=0.07, bare_vals=False, p_double_rel=0.12, p_abs_target=0.12, p_orphan_core=0.2, p_same_image_name=0.0,
     p_footnotes=0.6, p_endnotes=0.4, p_header=0.5, p_footer=0.5, p_comments=0.5, p_numbering=0.85, p_core=0.5,
     p_no_r_ns=0.0, dangling=True,
 )
@@ -105,6 +106,12 @@ class DocGen:
         if r.random() < 0.2: out += f'<w:highlight w:val="{r.choice(["yellow", "none", "darkBlue"])}"/>'
         if r.random() < 0.1: out += '<w:rStyle w:val="Strong"/>'
         if r.random() < 0.05: out += '<w:b/>'       # duplicate property
+        if self.p.get('bare_vals') and r.random() < 0.15: out += r.choice(['<w:vertAlign/>', '<w:color/>', '<w:highlight/>', '<w:vertAlign w:val="sideways"/>', '<w:rStyle/>'])
+        if self.coin('p_prchange'):
+            # a tracked formatting change: the OLD run properties sit below w:rPrChange and do not apply
+            old = ''.join(x for x in ['<w:b/>', '<w:i/>', '<w:color w:val="00FF00"/>', '<w:vertAlign w:val="superscript"/>', '<w:u w:val="single"/>',
+                                      '<w:sz w:val="40"/>', '<w:highlight w:val="red"/>', '<w:strike/>', '<w:caps/>'] if r.random() < 0.35)
+            out += f'<w:rPrChange w:id="70" w:author="a" w:date="2020-01-01T00:00:00Z"><w:rPr>{old}</w:rPr></w:rPrChange>'; self.c('rPrChange'); self.feat.add('tracked_property_change')
         if out: self.c('rPr')
         return f'<w:rPr>{out}</w:rPr>' if out or r.random() < 0.1 else ''
 
@@ -250,6 +257,13 @@ class DocGen:
         if r.random() < 0.1: out += '<w:rPr><w:b/></w:rPr>'
         elif r.random() < 0.12: out += '<w:rPr><w:ins w:id="8" w:author="a"/></w:rPr>'; self.feat.add('tracked_paragraph_mark')   # an EMPTY w:ins
         if r.random() < 0.05 and not self.p.get('no_r'): out += '<w:sectPr><w:headerReference w:type="default" r:id="rId30"/></w:sectPr>'
+        if self.p.get('bare_vals') and r.random() < 0.1 and 'pStyle' not in out and 'numPr' not in out:
+            out = r.choice(['<w:pStyle/>', '<w:numPr><w:ilvl/><w:numId w:val="1"/></w:numPr>', '<w:numPr><w:ilvl w:val="0"/><w:numId/></w:numPr>']) + out
+        if self.coin('p_prchange'):
+            # a tracked paragraph-property change: the OLD style / list membership sits below w:pPrChange and does not apply
+            old = ''.join(x for x in ['<w:pStyle w:val="Heading1"/>', '<w:numPr><w:ilvl w:val="0"/><w:numId w:val="1"/></w:numPr>', '<w:jc w:val="left"/>',
+                                      '<w:tabs><w:tab w:val="left" w:pos="720"/></w:tabs>'] if r.random() < 0.4)
+            out += f'<w:pPrChange w:id="60" w:author="a"><w:pPr>{old}</w:pPr></w:pPrChange>'; self.c('pPrChange'); self.feat.add('tracked_property_change')
         return f'<w:pPr>{out}</w:pPr>' if out or r.random() < 0.1 else ''
 
     def par(self, d=0):
@@ -277,6 +291,10 @@ class DocGen:
             if self.coin('p_grid_gap'):
                 trpr = r.choice(['<w:trPr><w:gridBefore w:val="1"/></w:trPr>', '<w:trPr><w:gridAfter w:val="2"/><w:cantSplit/></w:trPr>', '<w:tblPrEx/>'])
                 self.feat.add('grid_gap')
+            elif self.coin('p_prchange'):
+                trpr = r.choice(['<w:trPr><w:trPrChange w:id="40" w:author="a"><w:trPr><w:gridBefore w:val="1"/><w:gridAfter w:val="1"/></w:trPr></w:trPrChange></w:trPr>',
+                                 '<w:trPr><w:ins w:id="41" w:author="a"/></w:trPr>', '<w:trPr><w:del w:id="42" w:author="a"/></w:trPr>'])
+                self.feat.add('tracked_property_change')
             out += f'<w:tr>{trpr}'
             for j in range(self.rint('cells')):
                 pr = ''
@@ -286,6 +304,13 @@ class DocGen:
                     vm = r.choice(['<w:vMerge/>', '<w:vMerge w:val="restart"/>', '<w:vMerge w:val="continue"/>']); self.feat.add('vMerge')
                     pr += vm; cont_cell = 'restart' not in vm
                 if r.random() < 0.05: pr += '<w:hMerge w:val="restart"/>'
+                if P.get('bare_vals') and r.random() < 0.1: pr += '<w:gridSpan/>'
+                if self.coin('p_prchange'):
+                    pr += r.choice(['<w:tcPrChange w:id="50" w:author="a"><w:tcPr><w:gridSpan w:val="3"/></w:tcPr></w:tcPrChange>',
+                                    '<w:tcPrChange w:id="51" w:author="a"><w:tcPr><w:vMerge w:val="restart"/><w:gridSpan w:val="2"/></w:tcPr></w:tcPrChange>',
+                                    '<w:tcPrChange w:id="52" w:author="a"><w:tcPr><w:vMerge/></w:tcPr></w:tcPrChange>', '<w:cellIns w:id="53" w:author="a"/>',
+                                    '<w:cellMerge w:id="54" w:author="a" w:vMerge="cont"/>'])
+                    self.feat.add('tracked_property_change')
                 cont = ''
                 if cont_cell and r.random() < 0.5:
                     # what Word leaves in a vertically continued cell: an empty paragraph that keeps its properties
@@ -324,6 +349,7 @@ class DocGen:
     def numbering(self):
         r = self.r
         def lv(i):
+            if self.p.get('bare_vals') and r.random() < 0.06: return f'<w:lvl w:ilvl="{i}">' + r.choice(['<w:start/>', '<w:numFmt/>']) + '</w:lvl>'      # not schema-valid: the definitions are dropped, nothing raises
             return (f'<w:lvl w:ilvl="{i}">' + r.choice(['', '<w:start w:val="1"/>', '<w:start w:val="0"/>', '<w:start w:val="5"/>', '<w:start w:val="27"/>'])
                     + r.choice(['', '<w:numFmt w:val="decimal"/>', '<w:numFmt w:val="lowerLetter"/>', '<w:numFmt w:val="upperRoman"/>', '<w:numFmt w:val="bullet"/>',
                                 '<w:numFmt w:val="ordinal"/>', '<w:numFmt w:val="none"/>', '<w:numFmt w:val="upperLetter"/>', '<w:numFmt w:val="lowerRoman"/>'])
@@ -440,17 +466,30 @@ def make_package(rng, prof=None, body=None):
     nh = 0
     while r.random() < prof['p_header'] and nh < 3:
         nh += 1
-        pk.add(f'word/header{nh}.xml', f'<w:hdr {ns_decl()}>' + ''.join(g.block() for _ in range(r.randint(0, 2))) + '</w:hdr>'); dr.append((f'rId3{nh}', 'header', f'header{nh}.xml'))
+        tgt = f'header{nh}.xml'
+        if r.random() < prof.get('p_abs_target', 0): tgt = '/word/' + tgt; g.feat.add('absolute_target')      # package-absolute target: sorts before every relative one
+        pk.add(f'word/header{nh}.xml', f'<w:hdr {ns_decl()}>' + ''.join(g.block() for _ in range(r.randint(0, 2))) + '</w:hdr>'); dr.append((f'rId3{nh}', 'header', tgt))
         if nh == 1: extra_rels['word/_rels/header1.xml.rels'] = [('rId9', 'hyperlink', 'http://hdr/', True)]
+        if nh == 1 and r.random() < prof.get('p_same_image_name', 0):
+            # another image part with the SAME file name in another folder, related from the header
+            extra_rels['word/_rels/header1.xml.rels'].append(('rId20', 'image', 'media2/i.png')); g.feat.add('two_image_parts_one_file_name')
+        if nh == 1 and r.random() < prof.get('p_double_rel', 0):
+            # one part, two relationships (default and first-page header): it is extracted once per relationship
+            dr.append(('rId39', 'header', 'header1.xml')); g.feat.add('part_related_twice')
     nf = 0
     while r.random() < prof['p_footer'] and nf < 2:
         nf += 1
-        pk.add(f'word/footer{nf}.xml', f'<w:ftr {ns_decl()}>' + g.par() + '</w:ftr>'); dr.append((f'rId4{nf}', 'footer', f'footer{nf}.xml'))
+        tgt = f'footer{nf}.xml'
+        if r.random() < prof.get('p_abs_target', 0): tgt = '/word/' + tgt; g.feat.add('absolute_target')
+        pk.add(f'word/footer{nf}.xml', f'<w:ftr {ns_decl()}>' + g.par() + '</w:ftr>'); dr.append((f'rId4{nf}', 'footer', tgt))
     pk.add('word/_rels/document.xml.rels', rels_xml(dr, comment=r.random() < 0.15))
     for n, items in extra_rels.items(): pk.add(n, rels_xml(items))
     pk.add('word/media/i.png', b'\x89PNG\r\n\x1a\n' + bytes(r.randrange(256) for _ in range(r.choice([0, 5, 40]))))
     if 'word/_rels/footnotes.xml.rels' in extra_rels: pk.add('word/media/j.png', b'JPNG' + bytes([r.randrange(256)]))
-    if any(t == CORE_RT for _, t, *_ in root_rels):
+    if 'two_image_parts_one_file_name' in g.feat: pk.add('word/media2/i.png', b'\x89PNG other folder ' + bytes([r.randrange(256)]))
+    orphan = (not any(t == CORE_RT for _, t, *_ in root_rels)) and r.random() < prof.get('p_orphan_core', 0)
+    if orphan: g.feat.add('orphan_core_part')     # a docProps/core.xml that no relationship points to: not the core properties
+    if orphan or any(t == CORE_RT for _, t, *_ in root_rels):
         pk.add('docProps/core.xml', '<cp:coreProperties xmlns:cp="http://schemas.openxmlformats.org/package/2006/metadata/core-properties" xmlns:dc="http://purl.org/dc/elements/1.1/">'
                '<dc:title/><dc:creator>me &amp; you</dc:creator><cp:revision>3</cp:revision><!-- c --></cp:coreProperties>')
     if r.random() < 0.3: pk.add('customXml/item1.xml', '<root><x>1</x></root>')
